@@ -580,7 +580,7 @@ class SimpleTvJob:
         mism = []
         for m in tv["mismatches"]:
             line = json.loads(vlib.shard_line(m["shard"], m["run"]))
-            small = {k: v for k, v in line.items() if k in ("ev", "head", "seq", "qual", "input", "cap", "kf", "kb", "fmt", "wrap", "recs", "n", "mode", "crlf", "bad", "count", "last", "seek", "m", "w", "via_set", "len", "how", "first", "second", "pos1", "pos2", "rle")}
+            small = {k: v for k, v in line.items() if k in ("ev", "head", "seq", "qual", "input", "cap", "kf", "kb", "fmt", "wrap", "recs", "n", "mode", "crlf", "bad", "count", "last", "seek", "m", "w", "via_set", "len", "how", "first", "second", "pos1", "pos2", "rle", "steps", "nrec", "nsteps", "panic")}
             mism.append({"props": m["props"], "why": m["why"], "kind": m["kind"], "fmt": line.get("fmt"), "op": line.get("ev"), "res_kind": None,
                          "case": {"event": small}, "job": self.name})
         sample = None
